@@ -3,3 +3,4 @@ pub mod props;
 pub mod run;
 pub mod safe;
 pub mod spec;
+pub mod sqlx;
